@@ -28,6 +28,8 @@ use crate::NodeId;
 
 #[cfg(test)]
 mod tests;
+#[cfg(slawlor_ractor_verif)]
+pub mod verif;
 
 /// Maximum number of pending requests inspected when handling a message.
 const PENDING_REQUEST_CLEANUP_BUDGET: usize = 16;
